@@ -11,6 +11,7 @@ import (
 	"fmt"
 	"os"
 	"os/exec"
+	"runtime"
 	"sort"
 	"strings"
 	"sync"
@@ -223,11 +224,15 @@ func runOp(st backend, c *clockCtl, o step) map[string]any {
 }
 
 type behaviour struct {
-	Backend string   `json:"backend"`
-	Steps   []step   `json:"steps,omitempty"`
-	Prog    [][]step `json:"prog,omitempty"` // concurrent program: one script per client goroutine
-	Rep     int      `json:"rep,omitempty"`
-	Hammer  string   `json:"hammer,omitempty"` // "hash": tight concurrent loops on one hash key (no per-op events)
+	Backend  string   `json:"backend"`
+	Steps    []step   `json:"steps,omitempty"`
+	Prog     [][]step `json:"prog,omitempty"` // concurrent program: one script per client goroutine
+	Rep      int      `json:"rep,omitempty"`
+	Hammer   string   `json:"hammer,omitempty"` // "hash": tight concurrent loops on one hash key (no per-op events)
+	Race     string   `json:"race,omitempty"`   // SetNX | CAS | IncrBy | Append: Racers callers per round on one fresh key
+	Racers   int      `json:"racers,omitempty"`
+	Rounds   int      `json:"rounds,omitempty"`
+	BudgetMs int      `json:"budget_ms,omitempty"`
 }
 
 // ---- concurrent part: runs in a child process so that a fatal runtime error ("concurrent map
@@ -243,6 +248,10 @@ func childMain() {
 	defer cancel()
 	m := memory.New(ctx)
 	c := &clockCtl{short: shortTTL}
+	if beh.Race != "" {
+		childRace(m, beh)
+		return
+	}
 	var seq atomic.Int64
 	type rec struct {
 		seq int64
@@ -300,12 +309,95 @@ func childMain() {
 	fmt.Println(`{"ev":"ChildDone"}`)
 }
 
+// childRace: Rounds rounds; in each, Racers persistent goroutines are released together by a spin
+// barrier and issue the same kind of operation on one fresh key. Rounds with the same outcome are
+// aggregated into one Race event (with a count).
+func childRace(m *memory.Storage, beh behaviour) {
+	enc := json.NewEncoder(os.Stdout)
+	n := beh.Racers
+	bools := make([]bool, n)
+	ints := make([]int64, n)
+	var gen, done atomic.Int64
+	var key atomic.Value
+	key.Store("")
+	stop := false
+	for i := 0; i < n; i++ {
+		go func(i int) {
+			last := int64(0)
+			for {
+				for gen.Load() == last {
+					runtime.Gosched()
+				}
+				last = gen.Load()
+				if stop {
+					return
+				}
+				k := key.Load().(string)
+				switch beh.Race {
+				case "SetNX":
+					bools[i], _ = m.SetNX(k, fmt.Sprintf("v%d", i), 0)
+				case "CAS":
+					bools[i], _ = m.CompareAndSwap(k, nil, fmt.Sprintf("v%d", i), 0)
+				case "IncrBy":
+					ints[i], _ = m.IncrBy(k, 1)
+				case "Append":
+					m.AppendToList(k, fmt.Sprintf("m%d", i))
+				}
+				done.Add(1)
+			}
+		}(i)
+	}
+	type outcome struct {
+		trues    int
+		distinct bool
+		final    int64
+	}
+	counts := map[outcome]int{}
+	// time-boxed: on a loaded machine fewer rounds are run rather than blowing the check's budget
+	deadline := time.Now().Add(time.Duration(beh.BudgetMs) * time.Millisecond)
+	for round := 0; round < beh.Rounds && (round%64 != 0 || time.Now().Before(deadline)); round++ {
+		k := fmt.Sprintf("race:%d", round)
+		key.Store(k)
+		done.Store(0)
+		gen.Add(1)
+		for done.Load() < int64(n) {
+			runtime.Gosched()
+		}
+		o := outcome{distinct: true}
+		seen := map[int64]bool{}
+		for i := 0; i < n; i++ {
+			if bools[i] {
+				o.trues++
+			}
+			if seen[ints[i]] {
+				o.distinct = false
+			}
+			seen[ints[i]] = true
+		}
+		switch beh.Race {
+		case "IncrBy":
+			o.final, _ = m.IncrBy(k, 0)
+		case "Append":
+			l, _ := m.GetList(k)
+			o.final = int64(len(l))
+		}
+		m.Delete(k)
+		counts[o]++
+	}
+	stop = true
+	gen.Add(1)
+	for o, c := range counts {
+		enc.Encode(fw.Event{"ev": "Race", "be": "memory", "kind": beh.Race, "n": n, "trues": o.trues, "distinct": o.distinct, "final": o.final, "count": c})
+	}
+	fmt.Println(`{"ev":"ChildDone"}`)
+}
+
 func driveConc(beh behaviour, raw []byte) *fw.Trace {
 	exe, err := os.Executable()
 	if err != nil {
 		return &fw.Trace{Status: fw.DriverError, Note: err.Error()}
 	}
-	ctx, cancel := context.WithTimeout(context.Background(), 30*time.Second)
+	ctx, cancel := context.WithTimeout(context.Background(), 180*time.Second)
 	defer cancel()
 	cmd := exec.CommandContext(ctx, exe, "--child")
 	cmd.Stdin = bytes.NewReader(raw)
@@ -352,7 +444,7 @@ func drive(env *fw.Env, b fw.Behaviour) *fw.Trace {
 	if err := json.Unmarshal(b.Data, &beh); err != nil {
 		return &fw.Trace{Status: fw.DriverError, Note: err.Error()}
 	}
-	if beh.Prog != nil || beh.Hammer != "" {
+	if beh.Prog != nil || beh.Hammer != "" || beh.Race != "" {
 		return driveConc(beh, b.Data)
 	}
 	ctx, cancel := context.WithCancel(context.Background())
@@ -549,6 +641,15 @@ func main() {
 			for i := 0; i < n; i++ {
 				out = append(out, fw.MustJSON(behaviour{Backend: "memory", Hammer: "hash", Rep: i + 1}))
 			}
+			rounds, reps, budget := 30000, 2, 2500
+			if env.Tier == "thorough" {
+				rounds, reps, budget = 300000, 4, 20000
+			}
+			for _, kind := range []string{"SetNX", "CAS", "IncrBy", "Append"} {
+				for r := 0; r < reps; r++ {
+					out = append(out, fw.MustJSON(behaviour{Backend: "memory", Race: kind, Racers: 8, Rounds: rounds, BudgetMs: budget, Rep: r + 1}))
+				}
+			}
 			return out
 		},
 		SelfTest: func(env *fw.Env, acc []*fw.Trace) []*fw.Trace {
@@ -605,7 +706,7 @@ func main() {
 		JudgeFor: func(t *fw.Trace) (string, string) {
 			var beh behaviour
 			json.Unmarshal(t.Beh.Data, &beh)
-			if beh.Prog != nil || beh.Hammer != "" {
+			if beh.Prog != nil || beh.Hammer != "" || beh.Race != "" {
 				return "KVConcTrace", "KVConcTrace.cfg"
 			}
 			return "", ""
